@@ -278,7 +278,10 @@ func init() {
 	registerCheck(&CheckDef{Prop: "C09", Level: "model_checking", Technique: tE1,
 		Quick:       []Run{{Scenario: "reserve", Depth: 7, MapModes: []int{1}}, {Scenario: "reserve-bind", Depth: 6, MapModes: []int{1}}, {Scenario: "reserve-two", Depth: 6, MapModes: []int{1}}},
 		Thorough:    []Run{{Scenario: "reserve-bind", Depth: 9, MapModes: []int{1, 2}}, {Scenario: "reserve", Depth: 9, MapModes: []int{1, 2, 3}}, {Scenario: "reserve-two", Depth: 8, MapModes: []int{1, 2}}},
-		QuickBudget: 150 * time.Second, ThoroughBudget: 12 * time.Minute})
+		QuickBudget: 150 * time.Second, ThoroughBudget: 12 * time.Minute,
+		// the scheduling cycle reserves in one goroutine while the RM withdraws the ask in another: the four views over all
+		// their interleavings
+		Also: c14Part("C09", "c09ilv", "final-state-C09-", func(n string) bool { return strings.HasPrefix(n, "S10-") || strings.HasPrefix(n, "S1-") }), Replay: replayC14})
 	registerCheck(&CheckDef{Prop: "C10", Level: "model_checking", Technique: tE1,
 		Quick:       []Run{{Scenario: "lifecycle", Depth: 7, MapModes: []int{1}}, {Scenario: "gang-life-Soft", Depth: 6, MapModes: []int{1}}, {Scenario: "gang-life-Hard", Depth: 6, MapModes: []int{1}}, {Scenario: "lifecycle-late", Depth: 8, MapModes: []int{1}}},
 		Thorough:    []Run{{Scenario: "lifecycle-late", Depth: 11, MapModes: []int{1}}, {Scenario: "lifecycle", Depth: 9, MapModes: []int{1, 2}}, {Scenario: "gang-life-Soft", Depth: 8, MapModes: []int{1}}, {Scenario: "gang-life-Hard", Depth: 8, MapModes: []int{1}}},
